@@ -40,7 +40,11 @@
 
 struct vf_in {
 	__u32 ngroups, last_group_blocks, itb;
+#ifdef ARBITRARY
 	unsigned char bits[(NB + 7) / 8];
+#else
+	__u32 head[MAXG], bad;
+#endif
 	unsigned char uninit[MAXG];
 };
 VF_DECLARE_INPUT(struct vf_in, IN)
@@ -62,9 +66,21 @@ errcode_t ext2fs_get_free_blocks2(ext2_filsys fs, blk64_t start, blk64_t finish,
 /* STUB: ext2fs_group_desc_csum_set() does nothing (C14 covers it) */
 void ext2fs_group_desc_csum_set(ext2_filsys fs, dgrp_t group) { (void) fs; (void) group; }
 
+/* concrete group count / inode table size per query (optional): the search arguments become mostly concrete */
+#ifdef NG
+#define VF_NG ((__u32) NG)
+#else
+#define VF_NG IN.ngroups
+#endif
+#ifdef ITB
+#define VF_ITB ((__u32) ITB)
+#else
+#define VF_ITB IN.itb
+#endif
+
 static __u32 vf_gsize(__u32 g)
 {
-	return g == IN.ngroups - 1 ? IN.last_group_blocks : BPG;
+	return g == VF_NG - 1 ? IN.last_group_blocks : BPG;
 }
 static __u32 ref_marked_in_group(const unsigned char *m, __u32 g)
 {
@@ -85,9 +101,15 @@ int main(void)
 	VF_INPUT(IN);
 	/* BOUND: 1..MAXG groups of BPG blocks (last group 8..BPG), 1 KiB blocks, 32-byte descriptors, inode table 1..3 blocks, no RAID stride, bigalloc off */
 	ASSUME(IN.ngroups >= 1 && IN.ngroups <= MAXG);
+#ifdef NG
+	ASSUME(IN.ngroups == NG);
+#endif
+#ifdef ITB
+	ASSUME(IN.itb == ITB);
+#endif
 	ASSUME(IN.last_group_blocks >= 8 && IN.last_group_blocks <= BPG);
 	ASSUME(IN.itb >= 1 && IN.itb <= 3);
-	vf_blocks_count = VF_FIRST + (unsigned long long) (IN.ngroups - 1) * BPG + IN.last_group_blocks;
+	vf_blocks_count = VF_FIRST + (unsigned long long) (VF_NG - 1) * BPG + IN.last_group_blocks;
 
 	vf_sb.s_magic = EXT2_SUPER_MAGIC;
 	vf_sb.s_first_data_block = VF_FIRST;
@@ -101,26 +123,43 @@ int main(void)
 	vf_fs.magic = EXT2_ET_MAGIC_EXT2FS_FILSYS;
 	vf_fs.super = &vf_sb;
 	vf_fs.blocksize = 1024;
-	vf_fs.group_desc_count = IN.ngroups;
+	vf_fs.group_desc_count = VF_NG;
 	vf_fs.desc_blocks = 1;
-	vf_fs.inode_blocks_per_group = IN.itb;
+	vf_fs.inode_blocks_per_group = VF_ITB;
 	vf_fs.group_desc = (struct opaque_ext2_group_desc *) vf_gd;
 	vf_fs.block_map = &vf_bmap_obj;
 	vf_fs.stride = 0;
 
+#ifdef ARBITRARY
 	/* pre-state: arbitrary bitmap content inside the filesystem, block 0 (boot block, outside every group) unused */
 	for (p = 0; p < NB; p++) {
 		M0[p] = (p >= VF_FIRST && p < vf_blocks_count) ? (IN.bits[p >> 3] >> (p & 7)) & 1 : 0;
 		M[p] = M0[p];
 	}
+#else
+	/* BOUND: pre-state bitmap = per group a prefix of 0..4 blocks (superblock copy + descriptors + reserved GDT, as
+	 * ext2fs_reserve_super_and_bgd marks them) plus at most one further block in use anywhere (a bad block) */
+	for (g = 0; g < MAXG; g++)
+		ASSUME(IN.head[g] <= 4);
+	for (p = 0; p < NB; p++) {
+		int m = 0;
+		for (g = 0; g < MAXG; g++)
+			if (g < VF_NG && p >= VF_FIRST + g * BPG && p < VF_FIRST + g * BPG + IN.head[g])
+				m = 1;
+		if (p == IN.bad)
+			m = 1;
+		M0[p] = (p >= VF_FIRST && p < vf_blocks_count) ? m : 0;
+		M[p] = M0[p];
+	}
+#endif
 	/* ASSUME: accounting invariant as ext2fs_initialize (+ handle_bad_blocks) leaves it: bg_free_blocks_count == group size -
 	 * blocks marked in the group - (2 bitmaps + inode table, pre-charged exactly when s_log_groups_per_flex == 0);
 	 * no table allocated yet; s_free_blocks_count is the sum */
 	for (g = 0; g < MAXG; g++) {
 		__u32 used;
-		if (g >= IN.ngroups)
+		if (g >= VF_NG)
 			continue;
-		used = ref_marked_in_group(M0, g) + (pre ? 2 + IN.itb : 0);
+		used = ref_marked_in_group(M0, g) + (pre ? 2 + VF_ITB : 0);
 		ASSUME(used <= vf_gsize(g));
 		ext2fs_bg_free_blocks_count_set(&vf_fs, g, vf_gsize(g) - used);
 		ext2fs_bg_flags_set(&vf_fs, g, (IN.uninit[g] & 1) ? EXT2_BG_BLOCK_UNINIT : 0);
@@ -139,11 +178,11 @@ int main(void)
 
 	/* (a) placement */
 	for (g = 0; g < MAXG; g++) {
-		if (g >= IN.ngroups)
+		if (g >= VF_NG)
 			continue;
 		tb[g][0] = ext2fs_block_bitmap_loc(&vf_fs, g); tl[g][0] = 1;
 		tb[g][1] = ext2fs_inode_bitmap_loc(&vf_fs, g); tl[g][1] = 1;
-		tb[g][2] = ext2fs_inode_table_loc(&vf_fs, g);  tl[g][2] = IN.itb;
+		tb[g][2] = ext2fs_inode_table_loc(&vf_fs, g);  tl[g][2] = VF_ITB;
 		for (k = 0; k < 3; k++) {
 			PROP(tb[g][k] >= VF_FIRST && tb[g][k] + tl[g][k] <= vf_blocks_count, "table lies inside the filesystem");
 #if !(FLEX && LGPF)
@@ -155,7 +194,7 @@ int main(void)
 					PROP(!M0[p], "table blocks were free before (not superblock/descriptor/reserved/in-use blocks)");
 			for (h = 0; h < MAXG; h++) {
 				__u32 k2;
-				if (h > g || h >= IN.ngroups)
+				if (h > g || h >= VF_NG)
 					continue;
 				for (k2 = 0; k2 < 3; k2++) {
 					if (h == g && k2 >= k)
@@ -171,7 +210,7 @@ int main(void)
 		int in_table = 0;
 		for (g = 0; g < MAXG; g++)
 			for (k = 0; k < 3; k++)
-				if (g < IN.ngroups && p >= tb[g][k] && p - tb[g][k] < tl[g][k])
+				if (g < VF_NG && p >= tb[g][k] && p - tb[g][k] < tl[g][k])
 					in_table = 1;
 		PROP(M[p] == (M0[p] || in_table), "block bitmap afterwards == before + exactly the allocated tables");
 	}
@@ -179,7 +218,7 @@ int main(void)
 	sum = 0;
 	for (g = 0; g < MAXG; g++) {
 		__u32 marked;
-		if (g >= IN.ngroups)
+		if (g >= VF_NG)
 			continue;
 		marked = ref_marked_in_group(M, g);
 		PROP(ext2fs_bg_free_blocks_count(&vf_fs, g) == vf_gsize(g) - marked,
